@@ -52,6 +52,7 @@ func c06World(tp *Tape, env *Env) (*Plan, *Violation) {
 	} else {
 		env.St.inc("worlds_without_reached_fault", 1)
 	}
+	journal(plan)
 	return plan, c06Exec(plan, env.St)
 }
 
